@@ -562,11 +562,65 @@ func checkU23(c *Ctx, p *Prog, fn *ssa.Function) {
 			}
 		}
 	}
-	// divider calls and tests inside the loop
+	// the per-combination body: the loop's own blocks, or - when the loop only calls one boolean
+	// helper on the visited combination and leaves with false when it says false - that helper
+	ufn, region := fn, loop
+	isCombo := func(v ssa.Value) bool {
+		base, okr := rangeElem(p.Sym(v))
+		return okr && base.V == ssa.Value(combos)
+	}
+	hasDivider := false
+	var bodyCalls []*ssa.Call
+	for b := range loop {
+		for _, in := range b.Instrs {
+			if call, ok := in.(*ssa.Call); ok {
+				if p.Callee(call) == nil && !call.Call.IsInvoke() && isDividerType(call.Call.Value.Type()) {
+					hasDivider = true
+				} else if cal := p.Callee(call); cal != nil && p.IsProduct(cal) && returnsBoolOnly(cal) {
+					bodyCalls = append(bodyCalls, call)
+				}
+			}
+		}
+	}
+	if !hasDivider && len(bodyCalls) == 1 {
+		bc := bodyCalls[0]
+		h := p.Callee(bc)
+		comboIdx, quantIdx := -1, -1
+		for i, a := range bc.Call.Args {
+			if isCombo(a) {
+				comboIdx = i
+			}
+			if quantity != nil && a == ssa.Value(quantity) {
+				quantIdx = i
+			}
+		}
+		falseLeaves := false
+		for _, b := range fn.Blocks {
+			ret, ok := b.Instrs[len(b.Instrs)-1].(*ssa.Return)
+			if !ok {
+				continue
+			}
+			if cv, isC := ret.Results[0].(*ssa.Const); isC && constString(cv) == "false" {
+				for _, e := range DomEdges(b) {
+					if p.edgeIsCallResult(e, func(f *ssa.Function) bool { return f == h }, false) {
+						falseLeaves = true
+					}
+				}
+			}
+		}
+		if comboIdx >= 0 && quantIdx >= 0 && falseLeaves && len(sccs(h.Blocks, blockSet(h.Blocks))) == 0 {
+			ufn, region = h, blockSet(h.Blocks)
+			hc, hq := h.Params[comboIdx], h.Params[quantIdx]
+			isCombo = func(v ssa.Value) bool { return v == ssa.Value(hc) }
+			quantity = hq
+			c.R.Funcs[p.FnKey(h)] = true
+		}
+	}
+	// divider calls and tests inside the body
 	var divCalls []*ssa.Call
 	var zeroTests []*ssa.Call
 	var tolCalls []*ssa.Call
-	for b := range loop {
+	for b := range region {
 		for _, in := range b.Instrs {
 			call, ok := in.(*ssa.Call)
 			if !ok {
@@ -589,13 +643,12 @@ func checkU23(c *Ctx, p *Prog, fn *ssa.Function) {
 	}
 	var mainDiv *ssa.Call
 	for _, dc := range divCalls {
-		base, okr := rangeElem(p.Sym(dc.Call.Args[0]))
-		if !okr || base.V != ssa.Value(combos) {
+		if !isCombo(dc.Call.Args[0]) {
 			p2 = append(p2, "divider at "+p.InstrPos(dc)+" is not given the combination being visited")
 		}
 		// fresh distribution: made inside the loop (v2) or nil (v1)
 		fresh := isNilConst(dc.Call.Args[2])
-		if mm, ok := dc.Call.Args[2].(*ssa.MakeMap); ok && loop[mm.Block()] {
+		if mm, ok := dc.Call.Args[2].(*ssa.MakeMap); ok && region[mm.Block()] {
 			fresh = true
 		}
 		if !fresh {
@@ -618,8 +671,7 @@ func checkU23(c *Ctx, p *Prog, fn *ssa.Function) {
 		if over != "slice" {
 			p3 = append(p3, "the zero-share test ("+p.Callee(zt).Name()+") ranges over the entries of the distribution map: members for which the divider created no entry are not seen")
 		} else if mainDiv != nil {
-			base, okr := rangeElem(p.Sym(zt.Call.Args[0]))
-			if !okr || base.V != ssa.Value(combos) {
+			if !isCombo(zt.Call.Args[0]) {
 				p3 = append(p3, "the zero-share test is not applied to the members of the combination being visited")
 			}
 			// distribution: the map given to / returned by the main divider call
@@ -633,7 +685,7 @@ func checkU23(c *Ctx, p *Prog, fn *ssa.Function) {
 		}
 		// failed test => return false
 		okFalse := false
-		for _, b := range fn.Blocks {
+		for _, b := range ufn.Blocks {
 			ret, ok := b.Instrs[len(b.Instrs)-1].(*ssa.Return)
 			if !ok {
 				continue
